@@ -15,7 +15,13 @@ def main(batch_path, cfg_path, out_path):
     uuid.uuid4 = lambda: uuid.UUID(int=rng.getrandbits(128), version=4)
     junk = []
     out = []
-    for idx, case in enumerate(batch["cases"]):
+    cases = list(enumerate(batch["cases"]))
+    if cfg.get("repeat"):
+        # the same scenarios once more in this process: whatever the first
+        # pass left behind in process-wide objects (ABI singletons, module
+        # level caches) must not show in the second
+        cases = cases + cases
+    for idx, case in cases:
         # perturb object addresses (gtirb nodes hash by identity)
         prng = random.Random(f"{cfg['alloc_seed']}:{idx}")
         junk.append([object() for _ in range(prng.randrange(0, 3000))])
